@@ -7,6 +7,8 @@ yet (`rOffset = |P|`), `w` = the pending bytes `buf[start:stop)`", with room for
 -/
 import ShpanVerif.Proofs.FileScanLemmas
 
+
+set_option autoImplicit false
 namespace ShpanVerif.Proofs.FileScan
 open List ShpanVerif.Model.FileScan
 
